@@ -156,6 +156,8 @@ def main():
             for dialect in ("ansi", "non-validating"):
                 if is_d28(tag, dialect):
                     continue
+                if dialect == "non-validating" and kind == "window2" and len(v.rels) > 1:
+                    continue  # D33 (known finding of C02, confirmed there): sqlparse analyzer loses the qualifier before DESC
                 evals += 1
                 try:
                     r = LineageRunner(sql, dialect=dialect)
